@@ -1,6 +1,8 @@
 (* Proofs/PatchP.v — the text layer of reverse patches: splitting into lines is lossless, the
-   repaired header rewrite leaves every hunk body diffy can render intact, and the former
-   rewrite (every line starting with "--- " / "+++ ") did not.
+   repaired header rewrite leaves every hunk body diffy can render intact and gives back both file
+   names whatever bytes they are made of (names with a quote, a backslash or a control character
+   are written in the quoted form, which diffy's parser undoes), and the former rewrite (every
+   line starting with "--- " / "+++ ", names written bare) did not.
    Stdlib only, no axioms. *)
 From Coq Require Import Strings.String.
 From RN Require Import Base.Bytes Base.Str Model.Patch.
@@ -108,21 +110,115 @@ Proof.
     rewrite H1, (IH H2). reflexivity.
 Qed.
 
-Lemma parse_filename_ok n : name_ok n = true -> parse_filename (n ++ [10]) = Some n.
+(* --- quoting: what quote_for_patch writes is what escaped_filename reads --- *)
+
+Lemma escaped_filename_esc c s :
+  escaped_filename (esc_char c ++ s) = option_map (cons c) (escaped_filename s).
 Proof.
-  intro H. destruct (name_ok_facts n H) as [B Q]. unfold parse_filename.
-  rewrite (take_until_miss 9 n 10) by (try apply not_bad_no; auto).
-  rewrite (take_until_hit 10 n) by (apply not_bad_no; auto).
-  rewrite B. destruct n as [|c n]; [reflexivity|]. destruct c as [|p]; [reflexivity|].
-  do 6 (destruct p; try reflexivity). contradiction.
+  unfold esc_char.
+  destruct (c =? 10) eqn:E10; [apply N.eqb_eq in E10; subst c; reflexivity|].
+  destruct (c =? 9) eqn:E9; [apply N.eqb_eq in E9; subst c; reflexivity|].
+  destruct (c =? 0) eqn:E0; [apply N.eqb_eq in E0; subst c; reflexivity|].
+  destruct (c =? 13) eqn:E13; [apply N.eqb_eq in E13; subst c; reflexivity|].
+  destruct (c =? 34) eqn:E34; [apply N.eqb_eq in E34; subst c; reflexivity|].
+  destruct (c =? 92) eqn:E92; [apply N.eqb_eq in E92; subst c; reflexivity|].
+  cbn [app escaped_filename]. rewrite E92. unfold bad_name_char.
+  rewrite E9, E10, E0, E13, E34, E92. reflexivity.
 Qed.
 
-Lemma name_line pre n : has_nl pre = false -> name_ok n = true -> line (pre ++ n ++ [10]).
+Theorem unescape_escape : forall n, escaped_filename (concat (map esc_char n)) = Some n.
 Proof.
-  intros P H. exists (pre ++ n). split; [rewrite app_assoc; reflexivity|].
-  unfold has_nl. rewrite existsb_app. fold (has_nl pre). rewrite P. cbn [orb].
-  apply not_bad_no; [reflexivity|]. apply (name_ok_facts n H).
+  induction n as [|c n IH]; [reflexivity|]. cbn [map concat].
+  rewrite escaped_filename_esc, IH. reflexivity.
 Qed.
+
+(* no escape contains a raw tab or newline *)
+Lemma esc_char_no k c : (k =? 9) || (k =? 10) = true -> existsb (N.eqb k) (esc_char c) = false.
+Proof.
+  intro K. unfold esc_char.
+  destruct (c =? 10) eqn:E10;
+    [apply orb_true_iff in K as [K|K]; apply N.eqb_eq in K; subst k; reflexivity|].
+  destruct (c =? 9) eqn:E9;
+    [apply orb_true_iff in K as [K|K]; apply N.eqb_eq in K; subst k; reflexivity|].
+  destruct (c =? 0) eqn:E0;
+    [apply orb_true_iff in K as [K|K]; apply N.eqb_eq in K; subst k; reflexivity|].
+  destruct (c =? 13) eqn:E13;
+    [apply orb_true_iff in K as [K|K]; apply N.eqb_eq in K; subst k; reflexivity|].
+  destruct (c =? 34) eqn:E34;
+    [apply orb_true_iff in K as [K|K]; apply N.eqb_eq in K; subst k; reflexivity|].
+  destruct (c =? 92) eqn:E92;
+    [apply orb_true_iff in K as [K|K]; apply N.eqb_eq in K; subst k; reflexivity|].
+  cbn [existsb]. rewrite orb_false_r.
+  apply orb_true_iff in K as [K|K]; apply N.eqb_eq in K; subst k; rewrite N.eqb_sym; assumption.
+Qed.
+
+Lemma escaped_no k n : (k =? 9) || (k =? 10) = true ->
+  existsb (N.eqb k) (concat (map esc_char n)) = false.
+Proof.
+  intro K. induction n as [|c n IH]; [reflexivity|]. cbn [map concat].
+  rewrite existsb_app, (esc_char_no k c K), IH. reflexivity.
+Qed.
+
+Lemma quote_name_no k n : (k =? 9) || (k =? 10) = true -> existsb (N.eqb k) (quote_name n) = false.
+Proof.
+  intro K. unfold quote_name. destruct (existsb bad_name_char n) eqn:B.
+  - rewrite !existsb_app, (escaped_no k n K).
+    apply orb_true_iff in K as [K|K]; apply N.eqb_eq in K; subst k; reflexivity.
+  - apply not_bad_no; [|exact B].
+    apply orb_true_iff in K as [K|K]; apply N.eqb_eq in K; subst k; reflexivity.
+Qed.
+
+(* the written name never contains a raw tab or newline, so it is one header field on one line *)
+Theorem quote_name_no_raw : forall n,
+  existsb (N.eqb 9) (quote_name n) = false /\ existsb (N.eqb 10) (quote_name n) = false.
+Proof. intro n. split; apply quote_name_no; reflexivity. Qed.
+
+Lemma strip_last_app c s : strip_last c (s ++ [c]) = Some s.
+Proof.
+  unfold strip_last. rewrite rev_app_distr. cbn [rev app].
+  rewrite N.eqb_refl, rev_involutive. reflexivity.
+Qed.
+
+Lemma is_quoted_bare n : existsb bad_name_char n = false -> is_quoted n = None.
+Proof.
+  destruct n as [|c n]; [reflexivity|]. cbn [existsb is_quoted]. intro H.
+  apply orb_false_iff in H as [H _]. unfold bad_name_char in H.
+  rewrite !orb_false_iff in H. destruct H as [[_ H34] _]. rewrite H34. reflexivity.
+Qed.
+
+(* diffy reads back every name, whatever its bytes, from what replace_patch_headers writes *)
+Theorem parse_filename_quote : forall n, parse_filename (quote_name n ++ [10]) = Some n.
+Proof.
+  intro n. destruct (quote_name_no_raw n) as [T L]. unfold parse_filename.
+  rewrite (take_until_miss 9 (quote_name n) 10 T) by reflexivity.
+  rewrite (take_until_hit 10 (quote_name n) L).
+  unfold quote_name. destruct (existsb bad_name_char n) eqn:B.
+  - cbn [app is_quoted]. change (34 =? 34) with true. cbn iota.
+    rewrite strip_last_app. apply unescape_escape.
+  - rewrite (is_quoted_bare n B). unfold unescaped_filename. rewrite B. reflexivity.
+Qed.
+
+Lemma quote_name_ok n : name_ok n = true -> quote_name n = n.
+Proof. intro H. unfold quote_name. rewrite (proj1 (name_ok_facts n H)). reflexivity. Qed.
+
+Lemma parse_filename_ok n : name_ok n = true -> parse_filename (n ++ [10]) = Some n.
+Proof. intro H. rewrite <- (quote_name_ok n H) at 1. apply parse_filename_quote. Qed.
+
+Lemma name_line pre n : has_nl pre = false -> line (pre ++ quote_name n ++ [10]).
+Proof.
+  intros P. exists (pre ++ quote_name n). split; [rewrite app_assoc; reflexivity|].
+  unfold has_nl. rewrite existsb_app. fold (has_nl pre). rewrite P. cbn [orb].
+  apply (quote_name_no_raw n).
+Qed.
+
+(* the historical failure: a name with a quote written bare is not a file name for diffy *)
+Example unquoted_name_rejected : parse_filename (bs "we""ird.txt" ++ [10]) = None.
+Proof. vm_compute. reflexivity. Qed.
+
+(* the same name as written now *)
+Example quoted_name_written :
+  quote_name (bs "we""ird.txt") = bs """we\""ird.txt""".
+Proof. vm_compute. reflexivity. Qed.
 
 (* ------------------------------------------------------------------------------------ *)
 (* A2: the repaired rewrite                                                            *)
@@ -168,7 +264,7 @@ Qed.
 
 Lemma rewrite_lines_render from to body : body_ok body = true ->
   rewrite_lines true from to (h1 :: h2 :: body) =
-  (minus3 ++ from ++ [10]) :: (plus3 ++ to ++ [10]) :: body.
+  (minus3 ++ quote_name from ++ [10]) :: (plus3 ++ quote_name to ++ [10]) :: body.
 Proof.
   intro H. cbn [rewrite_lines]. cbn zeta.
   change (starts_with at2 h1) with false. change (starts_with at2 h2) with false. cbn iota.
@@ -190,29 +286,46 @@ Proof. reflexivity. Qed.
 Lemma skipn4_plus3 x : skipn 4 (plus3 ++ x) = x.
 Proof. reflexivity. Qed.
 
-Theorem rewrite_then_parse_keeps_body : forall from to body,
-  name_ok from = true -> name_ok to = true -> body_ok body = true ->
-  diffy_body (rewrite_headers from to (render body)) = Some body.
+(* the header diffy parses out of the rewritten patch: both names as they were, and the body *)
+Theorem rewrite_then_parse_header : forall from to body,
+  body_ok body = true ->
+  parse_header_lines None None (skip_preamble (split_lines (rewrite_headers from to (render body))))
+  = Some (Some from, Some to, body).
 Proof.
-  intros from to body Hf Ht Hb. unfold rewrite_headers, diffy_body.
+  intros from to body Hb. unfold rewrite_headers.
   pose proof (body_ok_lines body Hb) as Lb.
   rewrite render_concat, (split_lines_lines (h1 :: h2 :: body))
     by (constructor; [apply h1_line|constructor; [apply h2_line|exact Lb]]).
   rewrite (rewrite_lines_render from to body Hb).
   rewrite split_lines_lines.
-  2:{ constructor; [apply name_line; [reflexivity|exact Hf]|].
-      constructor; [apply name_line; [reflexivity|exact Ht]|exact Lb]. }
+  2:{ constructor; [apply name_line; reflexivity|].
+      constructor; [apply name_line; reflexivity|exact Lb]. }
   cbn [skip_preamble]. unfold starts_with at 1. rewrite is_prefix_app. cbn [orb].
   cbn [parse_header_lines]. unfold starts_with at 1. rewrite is_prefix_app.
-  rewrite skipn4_minus3, (parse_filename_ok from Hf).
-  change (starts_with minus3 (plus3 ++ to ++ [10])) with false. cbn iota.
+  rewrite skipn4_minus3, (parse_filename_quote from).
+  change (starts_with minus3 (plus3 ++ quote_name to ++ [10])) with false. cbn iota.
   unfold starts_with at 1. rewrite is_prefix_app.
-  rewrite skipn4_plus3, (parse_filename_ok to Ht).
-  rewrite (parse_body _ _ body Hb). reflexivity.
+  rewrite skipn4_plus3, (parse_filename_quote to).
+  apply (parse_body _ _ body Hb).
 Qed.
 
+Theorem rewrite_then_parse_keeps_body : forall from to body,
+  body_ok body = true ->
+  diffy_body (rewrite_headers from to (render body)) = Some body.
+Proof.
+  intros from to body Hb. unfold diffy_body.
+  rewrite (rewrite_then_parse_header from to body Hb). reflexivity.
+Qed.
+
+(* the statement as it stood before names were quoted *)
+Corollary rewrite_then_parse_keeps_body_ok_names : forall from to body,
+  name_ok from = true -> name_ok to = true -> body_ok body = true ->
+  diffy_body (rewrite_headers from to (render body)) = Some body.
+Proof. intros from to body _ _ Hb. apply rewrite_then_parse_keeps_body. exact Hb. Qed.
+
 (* ------------------------------------------------------------------------------------ *)
-(* A3: the former rewrite corrupts a body that contains a deleted line "-- new_name"     *)
+(* A3: the former rewrite corrupts a body that contains a deleted line "-- new_name",    *)
+(*     and wrote a header diffy rejects for a name with a quote                         *)
 (* ------------------------------------------------------------------------------------ *)
 
 Definition bad_body : list bytes :=
@@ -232,3 +345,17 @@ Example rewrite_old_result :
   diffy_body (rewrite_headers_old (bs "a.sql") (bs "a.sql") (render bad_body)) =
   Some [bs "@@ -1 +1 @@" ++ [10]; bs "--- a.sql" ++ [10]; bs "+-- old_name" ++ [10]].
 Proof. vm_compute. reflexivity. Qed.
+
+(* and with bare names a file with a quote in its name gave a patch diffy does not parse at all *)
+Example rewrite_old_bare_name_unparsable :
+  diffy_body (rewrite_headers_old (bs "we""ird.txt") (bs "we""ird.txt")
+                (render [bs "@@ -1 +1 @@" ++ [10]; bs "-a" ++ [10]; bs "+b" ++ [10]])) = None.
+Proof. vm_compute. reflexivity. Qed.
+
+Print Assumptions unescape_escape.
+Print Assumptions quote_name_no_raw.
+Print Assumptions parse_filename_quote.
+Print Assumptions rewrite_then_parse_header.
+Print Assumptions rewrite_then_parse_keeps_body.
+Print Assumptions rewrite_then_parse_keeps_body_ok_names.
+Print Assumptions unquoted_name_rejected.
